@@ -2,6 +2,8 @@
  * events:
  *   CFG flags : <Username field image (SUPLA_EMAIL_MAXSIZE bytes)> <Password field image (SUPLA_LOCATION_PWD_MAXSIZE)>
  *               <MqttTopicPrefix field image (MQTT_PREFIX_SIZE)> <GUID (16)>       raw bytes of the configuration fields
+ *   FORM : <bytes>         one HTTP request (configuration form) through the real supla_esp_connectcb / supla_esp_recv_callback /
+ *                          supla_esp_discon_callback of supla_esp_cfgmode.c (no output; the stored configuration shows in CONNECT)
  *   CONNECT                real supla_esp_mqtt_init, dns found, reconnect, conn_on_connect, mqtt_sync; prints the computed
  *                          prefix and the first packet handed to espconn_sent
  *   SETPFX : <hex>         replace the computed prefix (C string) for the parser events
@@ -24,11 +26,15 @@
 #include "c16_access.h"
 #include "drvmain.h"
 
-static int wire_printed = 0, inited = 0;
+void supla_esp_recv_callback(void *arg, char *pdata, unsigned short len);
+void supla_esp_connectcb(void *arg);
+void supla_esp_discon_callback(void *arg);
+static int wire_printed = 0, inited = 0, in_form = 0;
 static char *own_prefix = NULL;
 
 static void on_sent(struct espconn *e, const unsigned char *p, unsigned len, int result) {
   (void)e; (void)result;
+  if (in_form) return;
   if (!wire_printed) { wire_printed = 1; fprintf(stdout, "WIRE : "); vout_hex("", p, len); }
 }
 /* the uninitialised `password[300]` of supla_esp_mqtt_conn_on_connect: make the stack content deterministic and non-zero */
@@ -63,6 +69,17 @@ static void run_case(int n, char **lines) {
       memcpy(supla_esp_cfg.MqttTopicPrefix, p, MQTT_PREFIX_SIZE); p += MQTT_PREFIX_SIZE;
       memcpy(supla_esp_cfg.GUID, p, SUPLA_GUID_SIZE);
       supla_esp_cfg.Flags = (unsigned char)flags;
+    } else if (strncmp(l, "FORM", 4) == 0) {
+      static struct espconn conn; static esp_tcp tcp;
+      memset(&conn, 0, sizeof conn); memset(&tcp, 0, sizeof tcp); conn.type = ESPCONN_TCP; conn.proto.tcp = &tcp;
+      if (len > 65535) len = 65535;
+      char *seg = malloc(len ? len : 1); memcpy(seg, buf, len);
+      in_form = 1;
+      supla_esp_connectcb(&conn);
+      supla_esp_recv_callback(&conn, seg, (unsigned short)len);
+      supla_esp_discon_callback(&conn);
+      in_form = 0;
+      free(seg);
     } else if (strncmp(l, "CONNECT", 7) == 0) {
       do_init();
       fprintf(stdout, "PREFIX : "); vout_hex("", c16_prefix(), c16_prefix_len());
